@@ -1,8 +1,16 @@
 #!/usr/bin/env python3
 """Writes MANIFEST.json from properties_cfg.json (single source of truth for what is claimed)."""
-import json, os
+import json, subprocess, os
 ROOT = os.path.dirname(os.path.abspath(__file__))
 cfg = json.load(open(os.path.join(ROOT, "properties_cfg.json")))
+# the commit of /repo this framework was last verified against ("unchanged tree"): used to tell new callees from existing ones
+try:
+    _head = subprocess.run(['git', '-C', '/repo', 'rev-parse', 'HEAD'], capture_output=True, text=True).stdout.strip()
+    if _head and cfg.get('baseline_commit') != _head:
+        cfg['baseline_commit'] = _head
+        json.dump(cfg, open('/verif/properties_cfg.json', 'w'), indent=1, ensure_ascii=False)
+except Exception:
+    pass
 props = [json.loads(l) for l in open(os.path.join(ROOT, "properties.jsonl")) if l.strip()]
 checks, na = [], []
 for p in props:
